@@ -213,7 +213,7 @@ def ob_int_pattern(r, tier, seed):
     W = e2.fresh_world(('compiler', 'common_defs', 'diagnostics', 'parser')); tt = W.tt
     TY = tt.find_adt(['tast', 'Ty'], 'compiler'); HP = [a for a in tt.by_name['Pat'] if a.crate == 'compiler' and 'hir' in '::'.join(a.path)][0]
     TP = tt.find_adt(['tast', 'Pat'], 'compiler'); PR = tt.find_adt(['common', 'Prim'], 'compiler')
-    lits = ['7', '200', '40000', '3000000000', '10000000000']
+    lits = ['7', '200', '40000', '3000000000', '10000000000'] + sorted({str(v) for m_ in (2**7, 2**8, 2**15, 2**16, 2**31, 2**32, 2**63, 2**64) for v in (m_ - 1, m_ // 2 + (m_ // 4))}, key=int)      # the maximum of every type and a value in the upper half of every unsigned range
     r.bounds = 'unsuffixed integer literal patterns %s against a matched value of each of the eight integer types, for every combination in which the literal fits the type (the typer rejects the others)' % lits
     r.assumptions = ['HirTable::pat returns the chosen pattern, TypeckResults::pat_ty the type the typer recorded for it (the type of the matched value; see O3.4)',
                      'oracle: typer::tast_builder::build_pat yields PPrim { value: Prim::<T> { the written value }, ty: T }']
